@@ -98,6 +98,11 @@ type cfgSpec struct {
 	// AllowOriginsFunc after the answer was determined, with a copy of the origin the
 	// middleware passed; it may park or yield (a function doing a lookup / I/O would).
 	funcHook func(origin string)
+	// scribble: after New() returned, the caller re-uses everything it passed in (one scratch
+	// slice to build a middleware per tenant, a settings struct updated on reload): the slices are
+	// overwritten with these origins, appended to within their capacity and re-sliced, and a second
+	// middleware is built from them. The configuration that counts is the one New() was given.
+	scribble []string
 }
 
 func (s *cfgSpec) allowAll() bool {
@@ -358,7 +363,7 @@ func genCfg(r *gen.Rand) *cfgSpec {
 		s.noConfig = true
 		return s
 	}
-	switch r.PickW(10, 2, 1, 1) {
+	switch r.PickW(10, 3, 1, 1) {
 	case 0: // list
 		n := r.PickW(0, 5, 4, 2, 1)
 		for i := 0; i < n; i++ {
@@ -637,6 +642,26 @@ type scenario struct {
 	cfg      *cfgSpec
 	reqs     []*reqSpec
 	reuseCtx bool
+	scribble bool // the caller overwrites its configuration slices after New()
+}
+
+// shapeObs: the CORS part of one response, filed under the request's shape without its origin.
+type shapeObs struct {
+	qi      int
+	origin  string
+	cors    string
+	hasVary bool
+}
+
+func corsHeaders(resp *drive.Resp) string {
+	var hs []string
+	for _, h := range resp.Hdr {
+		if strings.HasPrefix(strings.ToLower(h.K), "access-control-") {
+			hs = append(hs, strings.ToLower(h.K)+": "+h.V)
+		}
+	}
+	sort.Strings(hs)
+	return strings.Join(hs, "\n")
 }
 
 func build(s *cfgSpec, entered *int) (app *fiber.App, panicked bool, pmsg string) {
@@ -651,16 +676,26 @@ func build(s *cfgSpec, entered *int) (app *fiber.App, panicked bool, pmsg string
 	if s.noConfig {
 		h = mw.New()
 	} else {
+		// the caller's own slices, with spare capacity (scratch slices usually have some)
+		own := func(xs []string) []string {
+			if xs == nil {
+				return nil
+			}
+			return append(make([]string, 0, len(xs)+4), xs...)
+		}
 		c := mw.Config{
 			AllowCredentials:    s.cred,
 			AllowPrivateNetwork: s.pna,
 			MaxAge:              s.maxAge,
-			AllowHeaders:        s.allowHeaders,
-			ExposeHeaders:       s.exposeHeaders,
-			AllowMethods:        s.methods,
+			AllowHeaders:        own(s.allowHeaders),
+			ExposeHeaders:       own(s.exposeHeaders),
+			AllowMethods:        own(s.methods),
 		}
 		if len(s.entries) > 0 {
-			c.AllowOrigins = s.originsText()
+			c.AllowOrigins = own(s.originsText())
+		}
+		if len(s.scribble) > 0 {
+			defer scribbleOver(&c, s.scribble)
 		}
 		if s.hasFunc {
 			set := s.funcSet
@@ -715,6 +750,69 @@ func build(s *cfgSpec, entered *int) (app *fiber.App, panicked bool, pmsg string
 	return app, false, ""
 }
 
+// scribbleMethodsAndHeaders: the unchanged middleware keeps the caller's AllowMethods /
+// AllowHeaders / ExposeHeaders slices (its Config copy shares their backing arrays) and joins
+// them on every request, so a caller that overwrites them after New() changes what preflights
+// are answered with. Whether "configured" means "as given to New()" for these three is not
+// something the statement settles; judged is the origin list only (the permit clause), the
+// other three are probed and counted (info_*_follow_the_callers_slice_after_new) by
+// aliasingProbe. Flip to judge them as well.
+const scribbleMethodsAndHeaders = false
+
+// aliasingProbe: observation only.
+func aliasingProbe(e *ev.Env) {
+	methods := append(make([]string, 0, 8), "GET", "POST")
+	headers := append(make([]string, 0, 8), "Content-Type")
+	expose := append(make([]string, 0, 8), "X-Id")
+	app := fiber.New()
+	app.Use(mw.New(mw.Config{AllowOrigins: []string{"https://app.example.com"}, AllowMethods: methods, AllowHeaders: headers, ExposeHeaders: expose}))
+	app.All("/", func(c fiber.Ctx) error { return c.SendString("H") })
+	methods[0], headers[0], expose[0] = "XSCRIBBLED", "X-Scribbled", "X-Scribbled-Too"
+	d := drive.NewDirect(app)
+	pre := d.Do(&drive.Req{Method: "OPTIONS", URI: "/", Hdr: []drive.H{{K: "Origin", V: "https://app.example.com"}, {K: "Access-Control-Request-Method", V: "POST"}}})
+	get := d.Do(&drive.Req{Method: "GET", URI: "/", Hdr: []drive.H{{K: "Origin", V: "https://app.example.com"}}})
+	flag := func(name string, follows bool) {
+		if follows {
+			stat(e, "info_"+name+"_follow_the_callers_slice_after_new", 1)
+		} else {
+			stat(e, "info_"+name+"_keep_the_value_given_to_new", 1)
+		}
+	}
+	flag("allow_methods", strings.Contains(pre.Get(hACAM), "XSCRIBBLED"))
+	flag("allow_headers", strings.Contains(pre.Get(hACAH), "X-Scribbled"))
+	flag("expose_headers", strings.Contains(get.Get(hACEH), "X-Scribbled-Too"))
+	e.Sample("info_config_slices_after_new", map[string]any{"given_to_new": "AllowMethods [GET POST], AllowHeaders [Content-Type], ExposeHeaders [X-Id]; first elements overwritten afterwards",
+		"preflight_allow_methods": pre.Get(hACAM), "preflight_allow_headers": pre.Get(hACAH), "simple_expose_headers": get.Get(hACEH)})
+}
+
+// scribbleOver is what the caller does with its configuration value after New() returned.
+func scribbleOver(c *mw.Config, with []string) {
+	over := func(xs []string, vals []string) []string {
+		for i := range xs {
+			xs[i] = vals[i%len(vals)]
+		}
+		full := xs[:cap(xs)]
+		for i := len(xs); i < len(full); i++ {
+			full[i] = vals[i%len(vals)]
+		}
+		return full
+	}
+	origins := over(c.AllowOrigins, with)
+	if scribbleMethodsAndHeaders {
+		over(c.AllowMethods, []string{"XSCRIBBLED", "TRACE"})
+		over(c.AllowHeaders, []string{"X-Scribbled"})
+		over(c.ExposeHeaders, []string{"X-Scribbled-Too"})
+	}
+	if len(origins) > 0 {
+		// the next tenant's middleware, built from the same scratch slice
+		func() {
+			defer func() { _ = recover() }()
+			_ = mw.New(mw.Config{AllowOrigins: origins[:1+len(origins)/2], AllowMethods: c.AllowMethods})
+		}()
+		over(origins, []string{"https://scribbled-again.example"})
+	}
+}
+
 var okPaths = []string{"/", "/api/v1/items", "/x"}
 
 // otherOutcomePaths: requests whose downstream chain does not end with a plain 200.
@@ -746,6 +844,20 @@ const (
 func judge(e *ev.Env, c *ev.Case, sc *scenario) {
 	s := sc.cfg
 	entered := 0
+	if sc.scribble && !s.noConfig {
+		// what the caller writes into its slices afterwards: the origins this configuration refuses
+		for _, q := range sc.reqs {
+			if q.hasOrigin && q.inDomain && !q.o.null {
+				if ok, _ := s.permitted(q.o); !ok {
+					s.scribble = append(s.scribble, q.o.ser())
+				}
+			}
+		}
+		if len(s.scribble) == 0 {
+			s.scribble = []string{"https://attacker.example"}
+		}
+		stat(e, "cases_caller_overwrites_its_config_after_new", 1)
+	}
 	app, panicked, pmsg := build(s, &entered)
 	invalid := s.cred && s.allowAll()
 	e.Eval(1)
@@ -776,6 +888,7 @@ func judge(e *ev.Env, c *ev.Case, sc *scenario) {
 	// one RequestCtx for the whole history (what a keep-alive connection / the ctx pool does) or a
 	// fresh one per request
 	var shared fasthttp.RequestCtx
+	shapes := map[string][]shapeObs{}
 	if sc.reuseCtx {
 		stat(e, "cases_on_one_request_ctx", 1)
 	}
@@ -830,6 +943,45 @@ func judge(e *ev.Env, c *ev.Case, sc *scenario) {
 			continue
 		}
 		checkResp(e, c, s, all, qi, q, resp, entered, nil)
+
+		// metamorphic form of "responses that vary by origin carry Vary: Origin": same
+		// configuration, same request except for the Origin value - if the CORS headers of two
+		// such responses differ, both must carry Vary: Origin. Needs no reading of the policy.
+		if q.funcToggle != "" {
+			shapes = map[string][]shapeObs{} // the function's answers are part of the configuration
+		}
+		if q.hasOrigin && q.origin != "" {
+			key := strings.Join([]string{q.method, q.path, fmt.Sprint(q.hasACRM), q.acrm, q.acrh, q.acrpn}, "\x00")
+			shapes[key] = append(shapes[key], shapeObs{qi, q.origin, corsHeaders(resp), varySet(resp.All("Vary"))["origin"]})
+		}
+	}
+	var keys []string
+	for k := range shapes {
+		keys = append(keys, k)
+	}
+	sort.Strings(keys)
+	for _, k := range keys {
+		obs := shapes[k]
+		for i := 1; i < len(obs); i++ {
+			a, b := obs[0], obs[i]
+			if a.cors == b.cors || strings.EqualFold(a.origin, b.origin) {
+				if a.cors == b.cors {
+					stat(e, "same_shape_pairs_with_equal_cors_headers", 1)
+				}
+				continue
+			}
+			stat(e, "same_shape_pairs_with_different_cors_headers", 1)
+			if a.hasVary && b.hasVary {
+				continue
+			}
+			q := sc.reqs[b.qi]
+			e.Violation(c, "vary-origin-missing|responses-differ-between-origins|"+q.class(),
+				"two requests that differ only in their Origin got different CORS headers, but not both responses carry Vary: Origin",
+				map[string]any{"config": s.describe(), "request": q.describe(),
+					"origin_1": a.origin, "cors_headers_1": a.cors, "vary_origin_1": a.hasVary,
+					"origin_2": b.origin, "cors_headers_2": b.cors, "vary_origin_2": b.hasVary})
+			break
+		}
 	}
 }
 
@@ -1280,6 +1432,8 @@ func run(e *ev.Env) {
 		}})
 	})
 
+	e.Corpus("config-slices-after-new-probe", func(c *ev.Case) { aliasingProbe(e) })
+
 	// ---- generated ------------------------------------------------------------------------------
 	// ~2.5 % of the configurations are invalid on purpose and end the case at construction
 	n := e.N(200000, 20000000) / reqsPerCase * 21 / 20
@@ -1290,6 +1444,18 @@ func run(e *ev.Env) {
 			sc.reqs = append(sc.reqs, genReq(r, sc.cfg))
 		}
 		sc.reuseCtx = r.Bool()
+		sc.scribble = r.Chance(1, 3)
+		// the same request again from another origin (for the metamorphic Vary clause)
+		for k := 0; k < 4; k++ {
+			i, j := r.Intn(len(sc.reqs)), r.Intn(len(sc.reqs))
+			src := sc.reqs[i]
+			if i == j || !src.hasOrigin || src.origin == "" {
+				continue
+			}
+			tw := *src
+			tw.o, tw.kind, tw.inDomain, tw.origin = genOrigin(r, sc.cfg)
+			sc.reqs[j] = &tw
+		}
 		if r.Chance(1, 3) {
 			if h := genHistory(r, sc.cfg); h != nil {
 				at := r.Intn(len(sc.reqs) - len(h) + 1)
